@@ -164,7 +164,13 @@ impl Mappable for ClassFile {
 			nest_members: self.nest_members.remap(remapper)?,
 			permitted_subclasses: self.permitted_subclasses.remap(remapper)?,
 
-			record_components: Vec::new(), // TODO (takes in self.name as well)
+			// TODO: also remap the name (takes in self.name as well), the signature and the annotations
+			record_components: self.record_components.into_iter()
+				.map(|mut record_component| {
+					record_component.descriptor = record_component.descriptor.remap(remapper)?;
+					Ok(record_component)
+				})
+				.collect::<Result<_>>()?,
 
 			attributes: self.attributes,
 		})
